@@ -5,6 +5,7 @@ MD = {"cls": "torrentfile.rebuild.Metadata",
 
 
 def register(reg):
+    register_checked(reg)
     C = reg.contract
     OFF = "file_offset(self.files, file_index)"
     N = "len(self.files)"
@@ -35,3 +36,18 @@ def register(reg):
       },
       notes="position invariant: piece i starts at stream offset i*piece_length = offset(file_index) + bytes of that file already used; "
             "in particular a file that ends exactly on a piece boundary advances file_index")
+
+
+def register_checked(reg):
+    C = reg.contract
+    C("torrentfile.rebuild._checked",
+      props=["C19"],
+      params={"part": "str"},
+      returns="str",
+      ensures=[("C19", "returns_the_element_unchanged", "result == part"),
+               ("C19", "accepted_elements_cannot_leave_the_directory_they_are_joined_to",
+                "part != '..' and not part.startswith('/') and not ('/' in part) and not ('\\\\' in part)")],
+      raises={"ValueError": {"ensures": [
+          ("C19", "only_unsafe_elements_are_refused", "part == '..' or part.startswith('/') or ('/' in part) or ('\\\\' in part)")]}},
+      raises_props=["C19"],
+      notes="POSIX: os.path.isabs(p) == p.startswith('/'); '.' and '' are harmless (they stay inside the directory)")
